@@ -1,9 +1,178 @@
-(* C06 — placeholder while the harness is being built; replaced below. *)
+(* C06 — properties: printf and plural verdicts match the argument model.
+
+   The model is Model/CheckProps.v (PropertiesChecker.check / check_plural /
+   checkPrintf / getPrintfSpecs, Checker.check, plurals.get_plural) over
+   Model/Difflib.v (SequenceMatcher without junk heuristics), with the regular
+   expressions, the plural tables and every literal regenerated from the
+   source (Generated/RxC06.v, Generated/C06Facts.v).
+
+   Vocabulary (Model/CheckPropsSpec.v): [prefix l1 l2] = l2 starts with l1;
+   [has_error fs] = some finding has severity "error"; [error_f p m] /
+   [warning_f m] = the findings ("error", p, m, "printf") / ("warning", 0, m,
+   "printf"); [plural_f sev m] = (sev, 0, m, "plural"); [plural_forms loc] =
+   number of plural forms of the locale in the generated table. *)
 From Coq Require Import NArith List Bool Arith.
-From CL Require Import Base.Sx Base.Res Base.Str Model.Difflib Model.CheckProps Model.CheckPropsSpec.
+From CL Require Import Base.Sx Base.Res Base.Str Generated.C06Facts
+  Model.Difflib Model.CheckProps Model.CheckPropsSpec
+  Proofs.DifflibProofs Proofs.CheckPropsProofs Proofs.PluralProofs.
 Import ListNotations.
 
+(* ---- difflib (model without junk heuristics) ----------------------------------
+   get_opcodes never runs out of fuel and its opcodes tile both sequences:
+   consecutive, each of the right shape for its tag, "equal" blocks are equal
+   slices (DifflibProofs.tiles / op_ok). *)
+Theorem C06_difflib_tiles : forall (T : Type) (eqb : T -> T -> bool),
+  (forall x y, eqb x y = true <-> x = y) ->
+  forall a b, exists ops, get_opcodes eqb a b = Some ops /\ tiles a b ops 0 0.
+Proof. exact @get_opcodes_tiles. Qed.
+
+(* if b is a proper prefix of a: one "equal" over b (if b is not empty), one
+   "delete" of the rest of a *)
+Theorem C06_difflib_prefix : forall (T : Type) (eqb : T -> T -> bool),
+  (forall x y, eqb x y = true <-> x = y) ->
+  forall (b c : list T), c <> [] ->
+  get_opcodes eqb (b ++ c) b =
+  Some ((if Nat.eqb (length b) 0 then [] else [mkop Equal 0 (length b) 0 (length b)]) ++
+        [mkop Delete (length b) (length (b ++ c)) (length b) (length b)]).
+Proof. exact @get_opcodes_prefix. Qed.
+
+(* ---- the printf verdict --------------------------------------------------------
+   For every reference spec list and every localized value: a malformed value
+   is exactly the error of getPrintfSpecs at its position; otherwise, below
+   difflib's autojunk threshold (200 localized specs; the model answers
+   NotSupported at or above it):
+     - an error is reported iff the localized specs are not a prefix of the
+       reference's;
+     - equal lists: no finding;
+     - a proper prefix: exactly the one warning listing the trailing arguments;
+     - not a prefix: one error at position 0, possibly followed by one warning. *)
+Theorem C06_printf_verdict : forall (refSpecs : list spec) (v : str),
+  match get_printf_specs v with
+  | Raise t => check_printf refSpecs v = Raise t
+  | Ok (SErr p e) => check_printf refSpecs v = Ok [error_f p (perr_msg e)]
+  | Ok (SOk ls) =>
+      length ls < autojunk_threshold ->
+      exists fs, check_printf refSpecs v = Ok fs /\
+        (has_error fs = true <-> ~ prefix ls refSpecs) /\
+        (ls = refSpecs -> fs = []) /\
+        (prefix ls refSpecs -> ls <> refSpecs ->
+           exists ws, mapM (msg_ref lit_pf_fmt_trailing refSpecs)
+                           (range (length ls) (length refSpecs)) = Ok ws /\
+                      fs = [warning_f (join lit_pf_join_warn ws)]) /\
+        (~ prefix ls refSpecs ->
+           exists m rest, fs = error_f 0 m :: rest /\
+                          (rest = [] \/ exists w, rest = [warning_f w]))
+  end.
+Proof. exact check_printf_verdict. Qed.
+
+(* the scan of getPrintfSpecs never runs out of fuel *)
+Theorem C06_specs_fuel : forall v, get_printf_specs v <> Raise OutOfFuel.
+Proof. exact get_printf_specs_fuel. Qed.
+
+(* ---- the plural verdict ----------------------------------------------------------
+   With pats / lpats the #n variables of the reference / localized value:
+     - count part: the locale has n forms and the value has found_forms = 1 +
+       number of ';' : nothing when equal, else one warning; unknown locale: nothing;
+     - variable part: no reference variable: nothing; some reference variable
+       unused: the warning; else some extra variable: the error; same sets: nothing. *)
+Theorem C06_plural : forall loc r l pats lpats,
+  plural_vars r = Ok pats -> plural_vars l = Ok lpats ->
+  exists fs_count fs_var,
+    check_plural loc r l = Ok (fs_count ++ fs_var) /\
+    match plural_forms loc with
+    | Some n => if Nat.eqb n (found_forms l) then fs_count = []
+                else fs_count = [plural_f s_warning (plural_count_msg n (found_forms l))]
+    | None => fs_count = []
+    end /\
+    (pats = [] -> fs_var = []) /\
+    (pats <> [] -> (exists x, In x pats /\ ~ In x lpats) ->
+       fs_var = [plural_f s_warning lit_plural_unused_msg]) /\
+    (pats <> [] -> (forall x, In x pats -> In x lpats) -> (exists x, In x lpats /\ ~ In x pats) ->
+       fs_var = [plural_f s_error lit_plural_extra_msg]) /\
+    (pats <> [] -> (forall x, In x pats <-> In x lpats) -> fs_var = []).
+Proof. exact check_plural_verdict. Qed.
+
+(* the verdict depends only on the SETS of variables, the number of ';' and
+   the locale's number of forms *)
+Theorem C06_plural_function : forall loc1 loc2 r1 r2 l1 l2 p1 p2 q1 q2,
+  plural_vars r1 = Ok p1 -> plural_vars r2 = Ok p2 ->
+  plural_vars l1 = Ok q1 -> plural_vars l2 = Ok q2 ->
+  (forall x, In x p1 <-> In x p2) -> (forall x, In x q1 <-> In x q2) ->
+  count_char semicolon l1 = count_char semicolon l2 ->
+  plural_forms loc1 = plural_forms loc2 ->
+  check_plural loc1 r1 l1 = check_plural loc2 r2 l2.
+Proof. exact check_plural_function. Qed.
+
+(* ---- the plural table ------------------------------------------------------------
+   get_plural never raises: it is the row of the locale's rule; a listed locale
+   gets its listed rule (no locale is listed twice); a tag with a region or
+   script that is not listed itself gets the rule of its language; every
+   known locale has at least one form. *)
+Theorem C06_plural_table : forall loc,
+  get_plural loc =
+  Ok (match get_plural_rule loc with
+      | Some n => Some (nth n plural_categories_by_index [])
+      | None => None
+      end).
+Proof. exact get_plural_spec. Qed.
+
+Theorem C06_plural_table_listed : forall l n, In (l, n) plural_by_locale ->
+  get_plural_rule (Some l) = Some n.
+Proof. exact get_plural_listed. Qed.
+
+Theorem C06_plural_table_region : forall l r, ~ In plural_locale_sep l ->
+  assoc_str (l ++ plural_locale_sep :: r) plural_by_locale = None ->
+  get_plural_rule (Some (l ++ plural_locale_sep :: r)) = get_plural_rule (Some l).
+Proof. exact get_plural_rule_region. Qed.
+
+Theorem C06_plural_table_forms : forall loc n, plural_forms loc = Some n -> 0 < n.
+Proof. exact plural_forms_positive. Qed.
+
+(* ---- non-vacuity: concrete runs, evaluated by the kernel ------------------------- *)
+Definition s_ (l : list nat) : str := map N.of_nat l.
+
+(* "%2$d %1$S" has the specs [S; d] *)
 Example C06_example_specs :
-  get_printf_specs (map N.of_nat [37; 50; 36; 100; 32; 37; 49; 36; 83]) =
+  get_printf_specs (s_ [37; 50; 36; 100; 32; 37; 49; 36; 83]) =
   Ok (SOk [Some [83%N]; Some [100%N]]).
 Proof. vm_compute. reflexivity. Qed.
+
+(* reference [S; d], localized "%S": a proper prefix -> the trailing warning *)
+Example C06_example_trailing :
+  check_printf [Some [83%N]; Some [100%N]] (s_ [37; 83]) =
+  Ok [warning_f (s_ [116; 114; 97; 105; 108; 105; 110; 103; 32; 97; 114; 103; 117; 109; 101;
+                     110; 116; 32; 50; 32; 96; 100; 96; 32; 109; 105; 115; 115; 105; 110; 103])].
+Proof. vm_compute. reflexivity. Qed.
+
+(* reference [S; d], localized "%d %S": not a prefix -> an error (argument 1 `d` obsolete)
+   and, because difflib then deletes the trailing d, also the warning *)
+Example C06_example_error :
+  match check_printf [Some [83%N]; Some [100%N]] (s_ [37; 100; 32; 37; 83]) with
+  | Ok fs => has_error fs = true /\ length fs = 2
+  | Raise _ => False
+  end.
+Proof. vm_compute. split; reflexivity. Qed.
+
+(* a lone per cent sign at offset 2 *)
+Example C06_example_lone :
+  check_printf [Some [83%N]] (s_ [97; 32; 37; 32; 98]) = Ok [error_f 2 lit_pe_single].
+Proof. vm_compute. reflexivity. Qed.
+
+(* the premises of C06_plural hold: "#1 a;#2" has the variables [1; 2] *)
+Example C06_example_plural_vars :
+  plural_vars (s_ [35; 49; 32; 97; 59; 35; 50]) = Ok [1%N; 2%N].
+Proof. vm_compute. reflexivity. Qed.
+
+(* Irish has five forms; "#1;#2" with two is the count warning, and with the
+   reference "#1" the extra variable #2 is the error *)
+Example C06_example_plural :
+  match check_plural (Some (s_ [103; 97])) (s_ [35; 49]) (s_ [35; 49; 59; 35; 50]) with
+  | Ok [f1; f2] => f_sev f1 = s_warning /\ f_sev f2 = s_error /\ f_cat f2 = s_plural
+  | _ => False
+  end.
+Proof. vm_compute. repeat split; reflexivity. Qed.
+
+Example C06_example_table :
+  plural_forms (Some (s_ [103; 97])) = Some 5 /\
+  plural_forms (Some (s_ [101; 110; 45; 85; 83])) = Some 2 /\ plural_forms None = None.
+Proof. vm_compute. repeat split; reflexivity. Qed.
